@@ -186,7 +186,7 @@ class Project:
                 for m in self.modules.values():
                     m.tree = normalize(m.tree)
             # a private attribute renamed *and* partly moved into a new helper has its reference usage signature only once the helper is expanded
-            if undo_attr_renames(self.modules, log=self.inline_log):
+            if undo_attr_renames(self.modules, log=self.inline_log, local_only=True):
                 for m in self.modules.values():
                     m.tree = normalize(m.tree)
             from .inline import lower_local_raises, thread_sentinel_tests
